@@ -2,12 +2,13 @@
 import itertools
 from ..driver import Part
 from . import proc_common as PC
-from . import inbox_common as IC
 from .. import common as C
 
-COQ_FILES = ["Tree.v", "TreeProofs.v", "TreeConc.v", "TreeConcProofs.v", "TreeExec.v", "PropsTree.v", "Proc.v", "ProcExec.v", "ProcProofs.v", "PropsProc.v", "DeliverExec.v"]
+COQ_FILES = ["Tree.v", "TreeProofs.v", "TreeConc.v", "TreeConcProofs.v", "TreeExec.v", "TreeModel.v", "TreeModelProofs.v", "TreeRace.v", "TreeRaceProofs.v", "TreeRaceExec.v", "PropsTree.v", "Proc.v", "ProcExec.v", "ProcProofs.v", "PropsProc.v"]
 THEOREMS = ["C08_children_first", "C08_events_once", "C08_own_order", "C08_children_listing", "C08_parent",
-            "C08_restart_keeps_children", "C08_adoption_corner", "C08_order_oracle_holds_of_model", "C08_done_oracle_holds_of_model",
+            "C08_restart_keeps_children", "C08_duplicate_spawn_noop", "C08_adoption_corner",
+            "C08_respawn_race_orphan_refuted", "C08_respawn_race_stale_refuted", "C08_respawn_race_check_then_act_refuted",
+            "C08_respawn_race_repaired", "C08_oracle_holds_of_model", "C08_order_oracle_holds_of_model", "C08_done_oracle_holds_of_model",
             "C08_children_first_conc", "C08_signal_after_subtree_conc", "C08_no_hang", "C08_pinned_refuted",
             "C08_repaired_parent_waits"]
 RULE = ("supervision trees built by scripted actors on a real engine (public API; every node spawns its children from its "
@@ -30,12 +31,17 @@ RULE = ("supervision trees built by scripted actors on a real engine (public API
         "held gate, stop for a stopping actor, ancestor stopped while a descendant is stopping, probe after a child stopped "
         "on its own, crash, hard stop, self poison, stop for a stopped actor, several handles, restart, stop of a subtree that "
         "holds a restarted actor, budget exhaustion after restarts, probe of a restarted parent, on-demand child); "
-        "distinct = distinct (tree, maxr, gates, steps)")
+        "distinct = distinct (tree, maxr, gates, steps). Respawn race part: the real engine under the deterministic scheduler "
+        "(inbox.go, registry.go and safemap.go shimmed: every lock acquisition of a children map is a scheduling point): a parent "
+        "serves 'make sure the child is there' requests with SpawnChild under a fixed id while Stop/Poison calls take the child "
+        "down; schedules drawn by PCT (depth 3) and by uniform random walks; at the end of each schedule: a child is registered "
+        "iff it is in the parent's map (no orphan, no stale entry)")
 TRUSTED_BASE = [
     "Coq 8.16.1 kernel; vm_compute (model replay and predicates on every case; the pinned-order witness); no native_compute",
     "axioms: none (Print Assumptions below)",
     "correspondence harness: /verif/harness cmd/hv family 'tree08' (scripted actors, gates, stamp counter, waiter goroutines, "
-    "event-stream monitor for crash handles), hook tools/hooks/actor/tree.go (VerifQueueLen: lets the harness see that a stopping "
+    "event-stream monitor for crash handles) and cmd/hvs family 'treerace' (tools/verifshim/vsched + ysync, shimgen copies of inbox.go, "
+    "registry.go, safemap.go), hook tools/hooks/actor/tree.go (VerifChildKeys: reads a children map at the end of a schedule; VerifQueueLen: lets the harness see that a stopping "
     "ancestor waits at an already-stopping actor instead of sleeping) and tools/hooks/actor/hooks.go (VerifIdle), vlib/props/c08.py",
     "modelled not verified: an actor handles one message at a time (C02); safemap operations and registry operations are atomic "
     "steps (mutex); Children() is one atomic snapshot (its Len/ForEach split can only add a nil entry, which Poison treats as an "
@@ -98,6 +104,11 @@ class T:
         self.kids[c] = []
         self.kids[p].append(c)
         self.order.append(c)
+
+    def nested(self, n=None):
+        """the tree as nested lists (children in spawn order)"""
+        n = self.order[0] if n is None else n
+        return [n, [self.nested(k) for k in self.kids[n]]]
 
     def closure(self, n):
         out = [n]
@@ -192,7 +203,7 @@ def simulate(inp):
                     return None
         else:
             return None
-    return dict(handles=handles)
+    return dict(handles=handles, final=t.nested())
 
 
 def well_formed(inp):
@@ -463,8 +474,11 @@ class Tree(Part):
         return cases
 
     def to_coq(self, inp, obs):
+        # the Coq side is given the tree at the end of the scenario (with the children spawned on demand)
+        sim = simulate(inp)
+        final = sim["final"] if sim else inp["tree"]
         return "{| c_tree := %s; c_maxr := %s; c_gates := %s; c_steps := %s; c_obs := %s |}" % (
-            tree_coq(inp["tree"]), C.cnat(inp.get("maxr", 0)), nats(inp["gates"]), C.clist([step_coq(s) for s in inp["steps"]]), obs_coq(obs))
+            tree_coq(final), C.cnat(inp.get("maxr", 0)), nats(inp["gates"]), C.clist([step_coq(s) for s in inp["steps"]]), obs_coq(obs))
 
     def shrink(self, inp):
         out = []
@@ -519,4 +533,60 @@ class Scripted(PC.ProcPart):
     prop = 7
 
 
-PARTS = [Tree(), Scripted(), IC.DeliverChildrenRace()]
+def build(binary, work, fams=None):
+    """harness build; for hvs safemap.go is shimmed as well (sync -> ysync), so that taking the lock of a children map is
+    a scheduling point: the window between a child's Registry.Remove and its children.Delete can be entered"""
+    if binary != "hvs":
+        return C.build_harness(work, binary, fams=fams)
+    import os
+    try:
+        C.shim_overlay(work)    # builds shimgen
+    except RuntimeError as e:
+        return None, str(e)
+    out_f = work.path("shim", "safemap_safemap.go")
+    rc, out = C.sh([work.path("shimgen"), "-in", os.path.join(C.REPO, "safemap/safemap.go"), "-out", out_f,
+                    "-map", "sync=%s/verifshim/ysync" % C.MODPATH], timeout=60)
+    if rc != 0:
+        return None, "shimgen failed on safemap/safemap.go: " + out
+    return C.build_harness(work, binary, extra_overlay={os.path.join(C.REPO, "safemap/safemap.go"): out_f}, fams=fams)
+
+
+class Race(Part):
+    """the child's delete from its parent's map racing with a re-spawn under the same id (D21)"""
+    name = "respawn_race"
+    binary = "hvs"
+    family = "treerace"
+    fam_files = ["treerace.go"]
+    exec_module = "TreeRaceExec"
+    shard = 4
+    branch_names = {1: "child_there_at_the_end", 2: "no_child_at_the_end", 3: "orphan", 4: "stale_entry"}
+
+    def generate(self, rng, tier):
+        w = 700 if tier == "quick" else 6000
+        cfgs = [(["poison"], [2], "pct"), (["stop"], [1, 1], "walk"), (["stop", "poison"], [2, 1], "pct"),
+                (["poison", "stop", "poison"], [3], "walk")]
+        return [{"input": {"stoppers": st, "ensure": en, "walks": w, "seed": rng.randrange(1 << 30), "mode": mode},
+                 "class": mode} for (st, en, mode) in cfgs]
+
+    def to_coq(self, inp, obs):
+        outs = []
+        for t in obs.get("terminals") or []:
+            if t.get("terminal"):
+                o = "(%s, %s)" % (C.cbool(t["registered"]), C.cbool(t["listed"]))
+                if o not in outs:
+                    outs.append(o)
+        dead = obs.get("deadlocks", 0) + obs.get("stuck", 0)
+        return "{| c_requests := %s; c_stoppers := %s; c_obs := %s; c_deadlocks := %s |}" % (
+            C.cnat(sum(inp["ensure"])), C.cnat(len(inp["stoppers"])), C.clist(outs), C.cnat(min(dead, 4000)))
+
+    def describe_obs(self, obs):
+        bad = [dict(obs=b.get("obs"), choices=b.get("choices")) for b in (obs.get("bad") or [])[:1]]
+        return dict(executions=obs.get("executions"), transitions=obs.get("transitions"), deadlocks=obs.get("deadlocks"),
+                    terminals=obs.get("terminals"), first_bad_schedule=bad)
+
+    def extra_coverage(self, inputs, obs):
+        return dict(schedules_enumerated=sum(o.get("executions", 0) for o in obs),
+                    transitions=sum(o.get("transitions", 0) for o in obs))
+
+
+PARTS = [Tree(), Scripted(), Race()]
